@@ -3,9 +3,10 @@
 -/
 import PowHsm.Spec.C05
 import PowHsm.Proofs.Chunks
+import PowHsm.Proofs.Blocks
 namespace PowHsm
 namespace Props.C05
-open Dongle
+open Dongle M
 
 /-- the order on brother keys is total and transitive, as `List.mergeSort` requires -/
 theorem bytesLe_total (a b : Bytes) : bytesLe a b || bytesLe b a := by
@@ -66,6 +67,164 @@ theorem mm_size_roundtrip (n : Nat) (h : n < 2 ^ 16) : Bytes.beVal (Bytes.be 2 n
 /-- the announced count is the number of blocks, for every list the manager accepts -/
 theorem count_roundtrip (n : Nat) (h : n < 2 ^ 32) : Bytes.beVal (Bytes.be 4 n) = n :=
   Bytes.beVal_be_of_lt (by simpa using h)
+
+/-- shape of the main block stream of an advance / update: for a prefix of the client's blocks,
+    in the client's order, each block is announced by its metadata message (operation, 2-byte
+    merge-mining payload size, coinbase hash for advance) and followed by chunk messages whose
+    payloads are a prefix of that block's own bytes; whatever lies between two blocks (the
+    brother exchanges) contains no message of the main stream -/
+inductive BlocksTrace (h : Hashes) (c : BlockCfg) : List (Option Bytes) → List Ev → Prop
+  | stop (bs : List (Option Bytes)) : BlocksTrace h c bs []
+  | block (b : Option Bytes) (bs : List (Option Bytes)) (data raw : Bytes) (as : List Bytes) (B rest : List Ev) :
+      headerMeta h c false b = some data → b = some raw →
+      (∀ a ∈ as, a.take 3 = [CLA, c.cmd, c.opHeaderChunk]) → (∃ k, payloads as = raw.take k) →
+      B.all (notMain c) = true → BlocksTrace h c bs rest →
+      BlocksTrace h c (b :: bs) (.apdu (CLA :: c.cmd :: data) :: (as.map Ev.apdu ++ (B ++ rest)))
+
+/-- **blocks reach the device in the client's order, byte-exact, none skipped or repeated** —
+    for every device behaviour: the trace of the block loop has the shape `BlocksTrace` -/
+theorem blocks_in_order (h : Hashes) (c : BlockCfg) (hc : Distinct c) :
+    ∀ (blocks : List (Option Bytes)) (brothers : List (List (Option Bytes))) (w : World),
+      BlocksTrace h c blocks (blockLoop h c blocks brothers w).evs := by
+  intro blocks
+  induction blocks with
+  | nil => intro brothers w; exact .stop _
+  | cons b bs ih =>
+    intro brothers w
+    unfold blockLoop
+    rw [bind_apply]
+    rcases sendBlockHeader_spec h c false b w with ⟨h0, hnone⟩ | ⟨data, raw, as, hm, hb, he, hh, hp⟩
+    · -- nothing was sent for this block: the loop ends here
+      have : (sendBlockHeader h c false b w) = ⟨.ok (.fail c.respComputeMeta), [], w⟩ := by
+        unfold sendBlockHeader
+        rcases hnone with hn | hn
+        · rw [hn]; rfl
+        · subst hn
+          cases headerMeta h c false none <;> rfl
+      rw [this]
+      exact .stop _
+    · have mk (B rest : List Ev) (hB : B.all (notMain c) = true) (hr : BlocksTrace h c bs rest) :
+          BlocksTrace h c (b :: bs) (.apdu (CLA :: c.cmd :: data) :: (as.map Ev.apdu ++ (B ++ rest))) :=
+        .block b bs data raw as B rest hm hb (by simpa [headerOpChunk] using hh) hp hB hr
+      cases hs : sendBlockHeader h c false b w with
+      | mk v e w1 =>
+        rw [hs] at he; simp only at he; subst he
+        cases v with
+        | error ex => simpa using mk [] [] rfl (.stop _)
+        | ok r =>
+          cases r with
+          | fail code => simpa using mk [] [] rfl (.stop _)
+          | ok resp0 =>
+            simp only
+            rw [bind_apply]
+            have hB := brothersPart_notMain h c hc brothers resp0 w1
+            cases hbp : brothersPart h c brothers resp0 w1 with
+            | mk v2 e2 w2 =>
+              rw [hbp] at hB; simp only at hB
+              cases v2 with
+              | error ex => simpa using mk e2 [] hB (.stop _)
+              | ok r2 =>
+                cases r2 with
+                | fail code => simpa using mk e2 [] hB (.stop _)
+                | ok resp =>
+                  simp only
+                  rw [bind_apply]
+                  unfold idx
+                  cases resp[2]? with
+                  | none => simpa [M.throw'] using mk e2 [] hB (.stop _)
+                  | some rop =>
+                    simp only [pure_apply]
+                    split
+                    · simpa using mk e2 [] hB (.stop _)
+                    · split
+                      · simpa using mk e2 [] hB (.stop _)
+                      · simpa using mk e2 _ hB (ih (brothers.drop 1) w2)
+
+/-- **the whole block operation**: the announced block count is the client's, and the blocks
+    follow as `BlocksTrace` says — for every device behaviour -/
+theorem block_operation_trace (h : Hashes) (c : BlockCfg) (hc : Distinct c)
+    (blocks : List (Option Bytes)) (brothers : List (List (Option Bytes))) (w : World) :
+    (doBlockOperation h c blocks brothers w).evs = [] ∨
+    ∃ rest, (doBlockOperation h c blocks brothers w).evs =
+        .apdu (CLA :: c.cmd :: c.opInit :: Bytes.be 4 blocks.length) :: rest ∧ BlocksTrace h c blocks rest := by
+  unfold doBlockOperation
+  split
+  · left; rfl
+  · right
+    simp only
+    rw [bind_apply]
+    have hinit : ∀ w, (catchResult
+        (do let resp ← sendCommand c.cmd (c.opInit :: Bytes.be 4 blocks.length)
+            let rop ← idx resp 2
+            if rop != c.opHeaderMeta then pure (some c.respUnexpected) else pure none)
+        (fun sw => pure (some (Tbl.applyRule c.initRule sw))) w).evs =
+        [.apdu (CLA :: c.cmd :: c.opInit :: Bytes.be 4 blocks.length)] := by
+      intro w
+      unfold catchResult
+      rw [tryCatchIf_evs_silent, bind_evs_silent, sendCommand_evs]
+      · intro resp
+        refine Emits.bind (idx_emits _ _) fun rop => ?_
+        split <;> exact Emits.pure _
+      · intro e
+        split
+        · exact Emits.pure _
+        · exact Emits.throw _
+    have h1 := hinit w
+    generalize catchResult _ _ w = r at h1
+    obtain ⟨v, e, w1⟩ := r
+    simp only at h1; subst h1
+    cases v with
+    | error ex => exact ⟨[], by simp, .stop _⟩
+    | ok o =>
+      cases o with
+      | some code => exact ⟨[], by simp, .stop _⟩
+      | none => exact ⟨_, by simp, blocks_in_order h c hc blocks brothers w1⟩
+
+/-- shape of the brothers of one block on the wire: for a prefix of the (sorted) list, in order,
+    each brother's metadata message followed by chunk messages carrying a prefix of its bytes -/
+inductive BrosTrace (h : Hashes) (c : BlockCfg) : List (Option Bytes) → List Ev → Prop
+  | stop (bs : List (Option Bytes)) : BrosTrace h c bs []
+  | bro (b : Option Bytes) (bs : List (Option Bytes)) (data raw : Bytes) (as : List Bytes) (rest : List Ev) :
+      headerMeta h c true b = some data → b = some raw →
+      (∀ a ∈ as, a.take 3 = [CLA, c.cmd, c.opBroChunk]) → (∃ k, payloads as = raw.take k) →
+      BrosTrace h c bs rest →
+      BrosTrace h c (b :: bs) (.apdu (CLA :: c.cmd :: data) :: (as.map Ev.apdu ++ rest))
+
+/-- **brothers reach the device in the order of the list handed over (sorted by `brothers_sorted`),
+    byte-exact, none skipped or repeated**, for every device behaviour -/
+theorem brothers_in_order (h : Hashes) (c : BlockCfg) :
+    ∀ (bs : List (Option Bytes)) (last : Bytes) (w : World), BrosTrace h c bs (sendBrothers h c bs last w).evs := by
+  intro bs
+  induction bs with
+  | nil => intro last w; exact .stop _
+  | cons b bs ih =>
+    intro last w
+    unfold sendBrothers
+    rw [bind_apply]
+    rcases sendBlockHeader_spec h c true b w with ⟨h0, hnone⟩ | ⟨data, raw, as, hm, hb, he, hh, hp⟩
+    · have : (sendBlockHeader h c true b w) = ⟨.ok (.fail c.respComputeMeta), [], w⟩ := by
+        unfold sendBlockHeader
+        rcases hnone with hn | hn
+        · rw [hn]; rfl
+        · subst hn
+          cases headerMeta h c true none <;> rfl
+      rw [this]
+      exact .stop _
+    · have mk (rest : List Ev) (hr : BrosTrace h c bs rest) :
+          BrosTrace h c (b :: bs) (.apdu (CLA :: c.cmd :: data) :: (as.map Ev.apdu ++ rest)) :=
+        .bro b bs data raw as rest hm hb (by simpa [headerOpChunk] using hh) hp hr
+      cases hs : sendBlockHeader h c true b w with
+      | mk v e w1 =>
+        rw [hs] at he; simp only at he; subst he
+        cases v with
+        | error ex => simpa using mk [] (.stop _)
+        | ok r =>
+          cases r with
+          | fail code => simpa using mk [] (.stop _)
+          | ok resp => simpa using mk _ (ih resp w1)
+
+/-- non-vacuity: both protocol flavours keep the brother operations apart from the main stream -/
+example : Distinct advCfg ∧ Distinct updCfg := ⟨advCfg_distinct, updCfg_distinct⟩
 
 end Props.C05
 end PowHsm
